@@ -766,4 +766,95 @@ theorem wellFormed_schemaEntry {p : Param} {s : Json} (hs : p.schemaEntry = .ok 
       by_cases hde : d.isEmpty = true <;> by_cases hl : p.label.isEmpty = true <;>
         simp [hde, hl, addField, wellFormed, wellFormedKws_append, wellFormedKws, jstr, isPlainStr]
 
+/-! ### the executable equalities of the oracle are equality -/
+
+mutual
+theorem PyVal.eq_of_beq : ∀ (a b : PyVal), PyVal.beq a b = true → a = b
+  | .none, b, h => by cases b <;> simp [PyVal.beq] at h <;> rfl
+  | .bool _, b, h => by cases b <;> simp [PyVal.beq] at h <;> simp [h]
+  | .int _, b, h => by cases b <;> simp [PyVal.beq] at h <;> simp [h]
+  | .float _, b, h => by cases b <;> simp [PyVal.beq] at h <;> simp [h]
+  | .str _, b, h => by cases b <;> simp [PyVal.beq] at h <;> simp [h]
+  | .list l, b, h => by
+    cases b <;> simp [PyVal.beq] at h
+    rename_i l'; rw [PyVal.eqL_of_beqL l l' h]
+  | .tuple l, b, h => by
+    cases b <;> simp [PyVal.beq] at h
+    rename_i l'; rw [PyVal.eqL_of_beqL l l' h]
+  | .dict l, b, h => by
+    cases b <;> simp [PyVal.beq] at h
+    rename_i l'; rw [PyVal.eqD_of_beqD l l' h]
+  | .date .., b, h => by cases b <;> simp [PyVal.beq] at h <;> simp [h]
+  | .datetime .., b, h => by cases b <;> simp [PyVal.beq] at h <;> simp [h]
+theorem PyVal.eqL_of_beqL : ∀ (a b : List PyVal), PyVal.beqL a b = true → a = b
+  | [], b, h => by cases b <;> simp [PyVal.beqL] at h <;> rfl
+  | x :: xs, b, h => by
+    cases b <;> simp [PyVal.beqL] at h
+    rename_i y ys
+    rw [PyVal.eq_of_beq x y h.1, PyVal.eqL_of_beqL xs ys h.2]
+theorem PyVal.eqD_of_beqD : ∀ (a b : List (PyKey × PyVal)), PyVal.beqD a b = true → a = b
+  | [], b, h => by cases b <;> simp [PyVal.beqD] at h <;> rfl
+  | (k, x) :: xs, b, h => by
+    cases b with
+    | nil => simp [PyVal.beqD] at h
+    | cons y ys =>
+      obtain ⟨k', y⟩ := y
+      simp [PyVal.beqD] at h
+      rw [h.1.1, PyVal.eq_of_beq x y h.1.2, PyVal.eqD_of_beqD xs ys h.2]
+end
+
+mutual
+theorem PyVal.beq_refl : ∀ (a : PyVal), PyVal.beq a a = true
+  | .none => rfl
+  | .bool _ => by simp [PyVal.beq]
+  | .int _ => by simp [PyVal.beq]
+  | .float _ => by simp [PyVal.beq]
+  | .str _ => by simp [PyVal.beq]
+  | .list l => by simp [PyVal.beq, PyVal.beqL_refl l]
+  | .tuple l => by simp [PyVal.beq, PyVal.beqL_refl l]
+  | .dict l => by simp [PyVal.beq, PyVal.beqD_refl l]
+  | .date .. => by simp [PyVal.beq]
+  | .datetime .. => by simp [PyVal.beq]
+theorem PyVal.beqL_refl : ∀ (a : List PyVal), PyVal.beqL a a = true
+  | [] => rfl
+  | x :: xs => by simp [PyVal.beqL, PyVal.beq_refl x, PyVal.beqL_refl xs]
+theorem PyVal.beqD_refl : ∀ (a : List (PyKey × PyVal)), PyVal.beqD a a = true
+  | [] => rfl
+  | (k, x) :: xs => by simp [PyVal.beqD, PyVal.beq_refl x, PyVal.beqD_refl xs]
+end
+
+/-- the executable equality the oracle uses is equality -/
+theorem PyVal.beq_iff_eq (a b : PyVal) : PyVal.beq a b = true ↔ a = b :=
+  ⟨PyVal.eq_of_beq a b, fun h => h ▸ PyVal.beq_refl a⟩
+
+mutual
+theorem Json.eq_of_beq : ∀ (a b : Json), Json.beq a b = true → a = b
+  | .null, b, h => by cases b <;> simp [Json.beq] at h <;> rfl
+  | .bool _, b, h => by cases b <;> simp [Json.beq] at h <;> simp [h]
+  | .int _, b, h => by cases b <;> simp [Json.beq] at h <;> simp [h]
+  | .float _, b, h => by cases b <;> simp [Json.beq] at h <;> simp [h]
+  | .str _, b, h => by cases b <;> simp [Json.beq] at h <;> simp [h]
+  | .arr l, b, h => by
+    cases b <;> simp [Json.beq] at h
+    rename_i l'; rw [Json.eqL_of_beqL l l' h]
+  | .obj l, b, h => by
+    cases b <;> simp [Json.beq] at h
+    rename_i l'; rw [Json.eqO_of_beqO l l' h]
+theorem Json.eqL_of_beqL : ∀ (a b : List Json), Json.beqL a b = true → a = b
+  | [], b, h => by cases b <;> simp [Json.beqL] at h <;> rfl
+  | x :: xs, b, h => by
+    cases b <;> simp [Json.beqL] at h
+    rename_i y ys
+    rw [Json.eq_of_beq x y h.1, Json.eqL_of_beqL xs ys h.2]
+theorem Json.eqO_of_beqO : ∀ (a b : List (String × Json)), Json.beqO a b = true → a = b
+  | [], b, h => by cases b <;> simp [Json.beqO] at h <;> rfl
+  | (k, x) :: xs, b, h => by
+    cases b with
+    | nil => simp [Json.beqO] at h
+    | cons y ys =>
+      obtain ⟨k', y⟩ := y
+      simp [Json.beqO] at h
+      rw [h.1.1, Json.eq_of_beq x y h.1.2, Json.eqO_of_beqO xs ys h.2]
+end
+
 end ParamVerif.Json
